@@ -266,6 +266,56 @@ pub fn momentum_market_saturated(n: usize, rising: bool) {
     core::mem::forget(agent);
 }
 
+/// the two documented probabilities are distinct quantities: with order ratio 0 the limit-order
+/// probability is 0 (never), while saturated demand makes the market-order probability >= 1 (always)
+pub fn momentum_ratio_zero(n: usize, rising: bool) {
+    let tick: Price = 1;
+    let mut env: Env = Env::new(any_u64(), tick, any_u64(), any_bool());
+    let mid = env.get_orderbook().mid_price();
+    let last = any_f64();
+    assume(last >= 0.0 && last <= 4294967295.0);
+    if rising {
+        assume(mid - last >= 1.0);
+    } else {
+        assume(last - mid >= 1.0);
+    }
+    let demand = any_f64();
+    assume(demand.is_finite() && demand >= 2.0 * n as f64 && demand <= 1.0e9);
+    let vol = any_u32();
+    assume(vol >= 1);
+    let mut agent = MomentumAgent {
+        price_dist: LogNormal::<f64>::new(0.0, 1.0).unwrap(),
+        orders: Vec::new(),
+        trader_ids: if n == 1 { vec![7] } else { vec![7, 8] },
+        last_price: Some(last),
+        momentum: 0.0,
+        n: n as f64,
+        tick_size: tick.into(),
+        params: MomentumParams { tick_size: tick, p_cancel: 0.0, trade_vol: vol, decay: 1.0, demand, scale: 20.0, order_ratio: 0.0, price_dist_mu: 0.0, price_dist_sigma: 1.0 },
+    };
+    let mut rng = SymRng::new();
+    agent.update(&mut env, &mut rng);
+    let (log, n_new) = placed();
+    let mut n_market = 0usize;
+    let mut n_limit = 0usize;
+    let mut k = 0;
+    while k < 4 {
+        if k < n_new {
+            if log[k].price.is_none() {
+                n_market += 1;
+            } else {
+                n_limit += 1;
+            }
+        }
+        k += 1;
+    }
+    vcheck!(n_limit == 0, "MOMENTUM.limit_probability_zero_never_places_a_limit_order");
+    vcheck!(n_market == n, "MOMENTUM.saturated_demand_one_market_order_per_trader");
+    vcover!(n_new == n, "cover.every_trader_acted");
+    core::mem::forget(env);
+    core::mem::forget(agent);
+}
+
 /// tanh on saturated arguments only: |x| >= 20 -> exactly +-1 (true of every correctly rounded and
 /// of glibc's f64 tanh, which returns +-1 for |x| > 19.06)
 #[cfg(kani)]
@@ -321,6 +371,20 @@ vharnesses! {
     #[cfg_attr(kani, kani::stub(crate::agents::common::cancel_live_orders, stub_cancel))]
     #[cfg_attr(kani, kani::stub(crate::Env::place_order, crate::Env::verif_log_place_order))]
     fn c17_momentum_saturated_falling_n1() { momentum_saturated(1, false) }
+    #[cfg_attr(kani, kani::unwind(12))]
+    #[cfg_attr(kani, kani::stub(f64::tanh, tanh_sat))]
+    #[cfg_attr(kani, kani::stub(crate::agents::common::place_buy_limit_order, stub_buy))]
+    #[cfg_attr(kani, kani::stub(crate::agents::common::place_sell_limit_order, stub_sell))]
+    #[cfg_attr(kani, kani::stub(crate::agents::common::cancel_live_orders, stub_cancel))]
+    #[cfg_attr(kani, kani::stub(crate::Env::place_order, crate::Env::verif_log_place_order))]
+    fn c17_momentum_ratio_zero_rising_n2() { momentum_ratio_zero(2, true) }
+    #[cfg_attr(kani, kani::unwind(12))]
+    #[cfg_attr(kani, kani::stub(f64::tanh, tanh_sat))]
+    #[cfg_attr(kani, kani::stub(crate::agents::common::place_buy_limit_order, stub_buy))]
+    #[cfg_attr(kani, kani::stub(crate::agents::common::place_sell_limit_order, stub_sell))]
+    #[cfg_attr(kani, kani::stub(crate::agents::common::cancel_live_orders, stub_cancel))]
+    #[cfg_attr(kani, kani::stub(crate::Env::place_order, crate::Env::verif_log_place_order))]
+    fn c17_momentum_ratio_zero_falling_n1() { momentum_ratio_zero(1, false) }
     #[cfg_attr(kani, kani::unwind(12))]
     #[cfg_attr(kani, kani::stub(f64::tanh, tanh_sat))]
     #[cfg_attr(kani, kani::stub(crate::agents::common::place_buy_limit_order_market, stub_buy_m))]
